@@ -132,6 +132,10 @@ func (w *tlsWorld) startServerFull(t *testing.T, rc *RunCtx, caCert []byte, nf s
 	if pop != nil {
 		ccfg.Pops = []*Population{pop}
 	}
+	if strings.Contains(nf, "signer-test") {
+		// the peer table of the peer-edge instance also lists a peer by address
+		ccfg.ExtraPeers = map[uint64]string{8: "127.0.0.1:9108"}
+	}
 	c := NewCluster(t, rc, s, ccfg)
 	// Peer names as in the repository's test certificates.
 	n := c.Nodes[0]
@@ -679,7 +683,10 @@ func runPeerEdge(t *testing.T, rc *RunCtx) {
 	creds := []string{"plaintext", "tls-no-client-cert", "valid-client-test01", "valid-unpermitted-client", "self-signed-peer-name", "other-authority-peer-name",
 		"valid-client-test01-followed-by-public-certificate-of-peer", "valid-unpermitted-client-followed-by-public-certificate-of-peer",
 		"self-signed-peer-name-followed-by-public-certificate-of-peer", "valid-peer-signer-test03",
-		"issued-subject-client-test01-alt-name-signer-test02", "issued-subject-client-test03-alt-names-signer-test02-and-own"}
+		"issued-subject-client-test01-alt-name-signer-test02", "issued-subject-client-test03-alt-names-signer-test02-and-own",
+		// a certificate of the configured authority without a subject name, from the address under which the peer table
+		// lists a peer (peers may be listed by address): an address is not an authenticated name
+		"issued-empty-subject-alt-name-client-test01"}
 	msgs := []string{"prepare", "contribute", "execute", "commit", "abort"}
 	base, _ := strconv.ParseUint(rc.Param("_seed_base", "0"), 10, 64)
 	idx := int(rc.Seed - base)
